@@ -92,6 +92,8 @@ func runC10(c *Ctx) {
 	reentrantLocks(c, "R7", []string{"balloon", "balloon/hyper", "balloon/history", "balloon/cache", "consensus", "gossip", "client", "server"})
 	c.Rule("R8", "concurrent requests share no decoded request state (handlers write only to their own locals)", 10)
 	handlerStatePerRequest(c, "R8")
+	c.Rule("R9", "a refused query ends the request: after an error answer the handler returns", 5)
+	errorResponseReturns(c, "R9")
 	checkGuards(c, "R1", c10Guards)
 	checkUnlocks(c, "R3", []string{"balloon", "balloon/hyper", "balloon/history", "balloon/cache", "gossip", "client", "consensus", "server", "storage/bplus", "storage/rocks"})
 	c10R4(c)
